@@ -1,9 +1,9 @@
 (* C09 on the executable queued model (Model/Proto2Queue.v over Model/P2Inst.v), by evaluation of the concrete
    delivery orders of Proofs/P2_QueueWitnessData.v:
      - the lost wake-up that is still open (SERIALIZABLE gates, F-02d),
-     - a livelock behind such a gate (F-22): everything pending is a pair of proposals that re-queue each other for ever,
+     - a livelock behind such a gate (F-C09-22): everything pending is a pair of proposals that re-queue each other for ever,
      - regression examples: the scenarios of the repaired lost wake-ups (F-02a dead_prev, F-02b initfail_successor,
-       F-02e sync_wakeup, commit_hidden_by_apply) and of the repaired wedged target (F-21) now end idle, at a fixed
+       F-02e sync_wakeup, commit_hidden_by_apply) and of the repaired wedged target (F-21 = F-C09-21) now end idle, at a fixed
        point, with every transaction final,
      - the hypotheses of the fixed-point theorem are satisfiable on a non-trivial reachable world. *)
 From stdpp Require Import gmap.
@@ -65,7 +65,7 @@ Qed.
 Theorem lost_wakeup_serializable_gate : lost_wakeup sig_serializable_gate.
 Proof. apply (lost_wakeup_by _ wit_serializable_gate (CtlTx 2)). vm_compute. reflexivity. Qed.
 
-(** * The work queue need not drain: a livelock behind a SERIALIZABLE gate (F-02d + F-22) *)
+(** * The work queue need not drain: a livelock behind a SERIALIZABLE gate (F-02d + F-C09-22) *)
 (* a reachable world, every target connected, a transaction not final, in which everything that is pending is a pair of
    proposals whose reconciles - whatever the oracle - do nothing but re-queue each other: whatever is delivered from here
    on, the world stays as it is and the queue never becomes empty *)
